@@ -479,7 +479,7 @@ def classify_copula(case):
 def strat_sde(draw, tier):
     g = draw(grid_spec(max_refine=0, types=["uniform", "uniform-fixed", "geometric", "geometric-bounds"]))
     return {"model": draw(chain_model_spec(exp=False)), "grid": g, "levels": draw(st.integers(1, 2)),
-            "x0": draw(st.floats(0.5, 2.0)), "a": draw(st.floats(-2.0, 2.0))}
+            "x0": draw(st.floats(0.5, 2.0)), "a": draw(st.floats(-2.0, 2.0)), "reinit": draw(st.booleans())}
 
 
 def body_sde(case):
@@ -513,6 +513,11 @@ def body_sde(case):
         coarse = MarkovChainProcess(model=driver, method=method, grid=coarse_grid)
         coarse.initialisation(product)
         cs.next_level(1, pms, product)
+        if case.get("reinit"):
+            # the levelled coupling is initialised again (another product priced on the same refined object): what it
+            # carries from the level below must survive that
+            cs.initialisation(product)
+            cs.pre_computation(1, product)
         fine = MarkovChainProcess(model=driver, method=method, grid=copy.deepcopy(cs.driver_coupling_process.grid))
         fine.initialisation(product)
         if not np.allclose(np.asarray(cs.mc_drift_2h, dtype=float), float(coarse.process_drift()), rtol=1e-12, atol=1e-14):
@@ -541,7 +546,8 @@ def body_sde(case):
 
 
 def classify_sde(case):
-    return [branch_of(case["model"]), case["grid"]["type"], f"levels={case['levels']}"], True
+    return [branch_of(case["model"]), case["grid"]["type"], f"levels={case['levels']}"] + \
+        (["re-initialised-after-refinement"] if case.get("reinit") else []), True
 
 
 SUBCHECKS = [
